@@ -65,6 +65,7 @@ var glTargets = []glTarget{
 	{pkg: "service", recv: "", name: "findAccessKeyUDP", listElem: "CipherEntry", opaque: map[string]bool{"Unpack": true}, drop: map[string]bool{"debugUDP": true}},
 	{pkg: "service", recv: "", name: "drainErrToString"},
 	{pkg: "service", recv: "", name: "NewShadowsocksStreamAuthenticator", lit: true, nilPtrs: true, opaque: map[string]bool{"findAccessKey": true, "remoteIP": true, "NewReader": true, "NewWriter": true, "WrapConn": true}},
+	{pkg: "service", recv: "ssService", name: "HandleStream", trace: true},
 	{pkg: "service", recv: "natmap", name: "Get"},
 	{pkg: "service", recv: "natmap", name: "set"},
 	{pkg: "service", recv: "natmap", name: "del"},
@@ -1120,10 +1121,30 @@ func (f *glFn) call(c *ast.CallExpr, value bool) string {
 					return "eff__ := eff__ ++ [{ name := " + leanStr(rn+"."+fn.Name()) + ", args := [], vals := [[Atom.tok (" + f.expr(sel.X) + ").val], " + strings.Join(vals, ", ") + "] }]"
 				}
 				var as []string
+				allInt := true
 				for _, a := range c.Args {
 					if f.leanType(f.typeOf(a)) != "Int" {
-						return f.fail(c, "effect argument of type %s", f.typeOf(a))
+						allInt = false
 					}
+				}
+				if !allInt {
+					// arguments that are not all integers (tokens, strings): recorded as atoms, one list per argument
+					var vals []string
+					for _, a := range c.Args {
+						at, ok := f.atoms(f.expr(a), f.typeOf(a))
+						if !ok {
+							return f.fail(c, "effect argument of type %s", f.typeOf(a))
+						}
+						vals = append(vals, at)
+					}
+					f.g.effs[f.rootStruct(sel.X)] = true
+					path := exprString(sel.X)
+					if i := strings.IndexByte(path, '.'); i >= 0 {
+						path = path[i+1:]
+					}
+					return lid(root) + " := { " + lid(root) + " with eff := " + lid(root) + ".eff ++ [{ name := " + leanStr(path+"."+fn.Name()) + ", args := [], vals := [" + strings.Join(vals, ", ") + "] }] }"
+				}
+				for _, a := range c.Args {
 					as = append(as, f.expr(a))
 				}
 				f.g.effs[f.rootStruct(sel.X)] = true
@@ -1140,8 +1161,13 @@ func (f *glFn) call(c *ast.CallExpr, value bool) string {
 				}
 			}
 			for i := 0; i < sig.Params().Len(); i++ {
-				ats = append(ats, f.leanType(sig.Params().At(i).Type()))
-				as = append(as, f.expr(c.Args[i]))
+				pt, at := f.leanType(sig.Params().At(i).Type()), f.leanType(f.typeOf(c.Args[i]))
+				ats = append(ats, pt)
+				if pt != at && strings.HasPrefix(pt, "(Opaque ") && strings.HasPrefix(at, "(Opaque ") {
+					as = append(as, "(⟨("+f.expr(c.Args[i])+").val⟩ : "+pt+")") // the same object seen through another interface
+				} else {
+					as = append(as, f.expr(c.Args[i]))
+				}
 			}
 			f.addExtra(pname, strings.Join(ats, " → ")+" → "+f.resultType(sig))
 			return "(" + pname + " " + strings.Join(as, " ") + ")"
